@@ -1020,7 +1020,39 @@ def refresh_blocks(F, E, B, roots, depth=0):
                 # (a return that ends the very block holding the fresh assignment has passed it)
                 if (inner or edges) and rets and not any(r not in inner and reachable_without(CB, edges, inner, r) for r in rets):
                     out.add(bi)
+                    continue
+                # ... or stores a value it was itself given (`fn replace_shared(this: &mut Self, fresh: Self)`): fresh at the
+                # call site is what counts
+                for k in range(2, len(cb.get("inputs") or []) + 1):
+                    if k - 1 >= len(t["args"]) or not fresh_value(F, E, B, t["args"][k - 1]):
+                        continue
+                    stores = set()
+                    for cj, cbl in enumerate(cb["blocks"]):
+                        for s in cbl["stmts"]:
+                            if s["k"] == "assign" and s["lhs"]["p"] == ["deref"] and 1 in root_args(CB, s["lhs"]["l"]) and s["rv"]["k"] == "use" and _moved_from_param(CB, s["rv"]["op"], k):
+                                stores.add(cj)
+                        ct = cbl["term"]
+                        if ct["k"] == "call" and atomics.callee_of(ct) in REPLACERS and len(ct["args"]) >= 2:
+                            c0 = operand_place(ct["args"][0])
+                            if c0 is not None and 1 in root_args(CB, c0["l"]) and _moved_from_param(CB, ct["args"][1], k):
+                                stores.add(cj)
+                    if stores and rets and not any(r not in stores and reachable_without(CB, set(), stores, r) for r in rets):
+                        out.add(bi)
+                        break
     return out
+
+
+def _moved_from_param(B, op, k, depth=0):
+    """The operand is parameter k itself, moved (possibly through temporaries)."""
+    pl = operand_place(op)
+    if pl is None or pl["p"] or depth > 6:
+        return False
+    if pl["l"] == k:
+        return True
+    d = B.single_def(pl["l"])
+    if d and d[0] == "assign" and d[3]["k"] == "use":
+        return _moved_from_param(B, d[3]["op"], k, depth + 1)
+    return False
 
 
 def _justified(F, E, B, cuts, roots, goal_bb):
